@@ -300,6 +300,21 @@ Theorem C10_memory_guarded_partial : C10_memory_statement Guarded.
 Proof. exact memory_guarded. Qed.
 Print Assumptions C10_memory_guarded_partial.
 
+(* "runtime crashes": Go aborts with "fatal error: concurrent map writes / concurrent map read
+   and map write" when two goroutines access one map, one of them writing, unordered.  No
+   guarded run meets that condition on sc.packages or on any Schemas map; without the lock the
+   model meets it (thread 0 inserts into a Schemas map while thread 1 reads it).  PARTIAL in the
+   same sense as the theorem above: about the model's events *)
+Theorem C10_guarded_no_concurrent_map_access_partial : forall pk k g calls sched, calls_ok calls ->
+  ~ concurrent_map_access (events Guarded pk k g calls sched).
+Proof. exact guarded_no_concurrent_map_access. Qed.
+Print Assumptions C10_guarded_no_concurrent_map_access_partial.
+
+Theorem C10_unguarded_concurrent_map_access :
+  concurrent_map_access (events Unguarded (fun _ => 0) 3 [(1, [2]); (2, [])] [[1]; [1]] [0; 0; 0; 1; 1]%nat).
+Proof. exact unguarded_concurrent_map_access. Qed.
+Print Assumptions C10_unguarded_concurrent_map_access.
+
 (* the locations of the statement: sc.packages and the Schemas map of each package are
    distinct (pk assigns type names to packages; here odd / even names), registered, and one
    To per RefSchema.  Two threads that work on different packages touch different Schemas
